@@ -448,4 +448,49 @@ theorem rank_ties_share (n : Nat) (x : Nat → Rat) (i j : Nat) (h : x i = x j) 
 
 example : (List.range 4).map (rank2 4 (fun t => [3, 1, 1, 2].getD t 0)) = [8, 3, 3, 6] := by decide
 
+/-- **mirrored result matrix.**  `_mutual_information` computes only the pairs `j < i`,
+writes the value to `mi[i*N + j]` and mirrors it to `mi[j*N + i]`: after the loops both
+cells of every pair `b < a < N` hold the value computed for `(a, b)` — the matrix is
+symmetric by construction — and the diagonal keeps its initial value. -/
+theorem mi_matrix_mirrored {α : Type} (zero : α) (val : Nat → Nat → α) (N a b : Nat)
+    (ha : a < N) (hb : b < a) :
+    miFlat zero val N N (a * N + b) = val a b ∧ miFlat zero val N N (b * N + a) = val a b :=
+  miFlat_entry zero val N N a b (Nat.le_refl _) ha hb
+
+theorem mi_matrix_symm {α : Type} (zero : α) (val : Nat → Nat → α) (N a b : Nat)
+    (ha : a < N) (hb : b < N) :
+    miFlat zero val N N (a * N + b) = miFlat zero val N N (b * N + a) := by
+  rcases Nat.lt_trichotomy a b with h | h | h
+  · have := mi_matrix_mirrored zero val N b a hb h; rw [this.1, this.2]
+  · subst h; rfl
+  · have := mi_matrix_mirrored zero val N a b ha h; rw [this.1, this.2]
+
+theorem mi_matrix_diag {α : Type} (zero : α) (val : Nat → Nat → α) (N a : Nat) (ha : a < N) :
+    miFlat zero val N N (a * N + a) = zero :=
+  miFlat_diag zero val N N a (Nat.le_refl _) ha
+
+example : (List.range 9).map (miFlat 0 (fun i j => i * 3 + j + 1) 3 3) = [0, 4, 7, 4, 0, 8, 7, 8, 0] := by
+  decide
+
+/-- **`bincount_hist`** (`D = 2`): through `multisymb = symb[0] + base·symb[1]`, `bincount`,
+`reshape(base, base).T`, entry `[a][b]` is the number of samples with symbols `(a, b)` -/
+theorem bincount_hist_counts (s0 s1 : Nat → Nat) (T base a b : Nat) (ha : a < base)
+    (h0 : ∀ k, s0 k < base) :
+    bincountHistEntry s0 s1 T base a b =
+      countTo T (fun k => decide (s0 k = a) && decide (s1 k = b)) := by
+  unfold bincountHistEntry bincount2
+  rw [incWalk_apply, Nat.zero_add]
+  apply countTo_congr
+  intro k _
+  rw [← Bool.decide_and]
+  apply decide_eq_decide.mpr
+  constructor
+  · intro h
+    have h' : s1 k * base + s0 k = b * base + a := by
+      rw [Nat.mul_comm (s1 k) base, Nat.add_comm]; exact h
+    have := flat_index_inj (h0 k) ha h'
+    exact ⟨this.2, this.1⟩
+  · intro h
+    rw [h.1, h.2, Nat.mul_comm, Nat.add_comm]
+
 end Pyunicorn.Coupling
